@@ -282,9 +282,54 @@ class _YieldFromGenExp(ast.NodeTransformer):
 
     visit_FunctionDef = visit_AsyncFunctionDef = _fn
 
+    def generic_visit(self, node):
+        # `tmp = [.. for ..]` consumed only by the `for` that follows: the loop iterates the comprehension itself
+        for fld in ('body', 'orelse', 'finalbody'):
+            blk = getattr(node, fld, None)
+            if isinstance(blk, list) and blk and isinstance(blk[0], ast.stmt):
+                i = 0
+                while i + 1 < len(blk):
+                    a, b = blk[i], blk[i + 1]
+                    if isinstance(a, ast.Assign) and len(a.targets) == 1 and isinstance(a.targets[0], ast.Name) and isinstance(a.value, (ast.ListComp, ast.GeneratorExp)) and isinstance(b, ast.For) and isinstance(b.iter, ast.Name) and b.iter.id == a.targets[0].id:
+                        nm = a.targets[0].id
+                        owner = node
+                        uses = [n for n in ast.walk(owner) if isinstance(n, ast.Name) and n.id == nm]
+                        if len(uses) == 2:
+                            b.iter = a.value
+                            del blk[i]
+                            self.n += 1
+                            continue
+                    i += 1
+        return super().generic_visit(node)
+
+    def _identity_over_targets(self, node):
+        """`for a, b in [(p, q) for p, q in it if c]: body` -> `for a, b in it: if c[p:=a, q:=b]: body`"""
+        g = node.iter
+        if not isinstance(g, (ast.ListComp, ast.GeneratorExp)) or len(g.generators) != 1 or node.orelse:
+            return None
+        c = g.generators[0]
+        if c.is_async or ast.dump(g.elt).replace('Load()', 'X').replace('Store()', 'X') != ast.dump(c.target).replace('Load()', 'X').replace('Store()', 'X'):
+            return None
+        src_names = [n.id for n in ast.walk(c.target) if isinstance(n, ast.Name)]
+        dst_names = [n.id for n in ast.walk(node.target) if isinstance(n, ast.Name)]
+        if len(src_names) != len(dst_names) or ast.dump(c.target).count('Name') != ast.dump(node.target).count('Name'):
+            return None
+        if isinstance(c.target, ast.Tuple) != isinstance(node.target, ast.Tuple):
+            return None
+        ren = dict(zip(src_names, dst_names))
+        body = node.body
+        for cond in reversed(c.ifs):
+            body = [ast.copy_location(ast.If(test=_Subst(ren, {}).visit(copy.deepcopy(cond)), body=body, orelse=[]), cond)]
+        new = ast.copy_location(ast.For(target=node.target, iter=c.iter, body=body, orelse=[], type_comment=None), node)
+        self.n += 1
+        return ast.fix_missing_locations(new)
+
     def visit_For(self, node):
         """`for x in [elt for y in it if c]: body` with a side-effect free elt is `for y in it: if c: x = elt; body`"""
         self.generic_visit(node)
+        ident = self._identity_over_targets(node)
+        if ident is not None:
+            return ident
         g = node.iter
         if not isinstance(g, (ast.ListComp, ast.GeneratorExp)) or node.orelse or not isinstance(node.target, ast.Name):
             return node
@@ -324,6 +369,37 @@ class _YieldFromGenExp(ast.NodeTransformer):
         return body
 
 
+class _LocalAnnAssign(ast.NodeTransformer):
+    """`x: T = v` inside a function body is the assignment `x = v` (class-level annotated fields are left alone)"""
+
+    def __init__(self):
+        self.n = 0
+        self.depth = 0
+
+    def _fn(self, node):
+        self.depth += 1
+        self.generic_visit(node)
+        self.depth -= 1
+        return node
+
+    visit_FunctionDef = visit_AsyncFunctionDef = _fn
+
+    def visit_ClassDef(self, node):
+        saved, self.depth = self.depth, 0
+        self.generic_visit(node)
+        self.depth = saved
+        return node
+
+    def visit_AnnAssign(self, node):
+        if self.depth and node.value is not None and isinstance(node.target, (ast.Name, ast.Attribute, ast.Subscript)):
+            self.n += 1
+            return ast.copy_location(ast.Assign(targets=[node.target], value=node.value, type_comment=None), node)
+        if self.depth and node.value is None:
+            self.n += 1
+            return ast.copy_location(ast.Pass(), node)
+        return node
+
+
 class _LoopIdioms(ast.NodeTransformer):
     """Loop spellings from the standard library, written back as plain loops (run before everything else):
       for i, x in enumerate(xs, start=K): B        ->  i = K - 1; for x in xs: i += 1; B
@@ -344,7 +420,7 @@ class _LoopIdioms(ast.NodeTransformer):
                 if not (isinstance(st, ast.Assign) and len(st.targets) == 1 and isinstance(st.targets[0], ast.Name)):
                     continue
                 v = st.value
-                lazy = isinstance(v, ast.GeneratorExp) or (isinstance(v, ast.Call) and (_dotted(v.func) or '').rsplit('.', 1)[-1] in ('takewhile', 'dropwhile', 'map', 'filter', 'islice', 'chain'))
+                lazy = isinstance(v, ast.GeneratorExp) or (isinstance(v, ast.Call) and (_dotted(v.func) or '').rsplit('.', 1)[-1] in ('takewhile', 'dropwhile', 'map', 'filter', 'islice', 'chain', 'partial'))
                 if not lazy:
                     continue
                 name = st.targets[0].id
@@ -357,10 +433,12 @@ class _LoopIdioms(ast.NodeTransformer):
                 holder = None
                 for r in rest:
                     for par in ast.walk(r):
-                        if isinstance(par, (ast.For, ast.AsyncFor)) and par.iter is u:
+                        if isinstance(par, (ast.For, ast.AsyncFor)) and par.iter is u and not (isinstance(v, ast.Call) and (_dotted(v.func) or '').rsplit('.', 1)[-1] == 'partial'):
                             holder = (par, 'iter', None)
                         elif isinstance(par, ast.Call) and (_dotted(par.func) or '').rsplit('.', 1)[-1] in ('takewhile', 'dropwhile', 'map', 'filter') and len(par.args) == 2 and par.args[1] is u:
                             holder = (par, 'args', 1)
+                        elif isinstance(par, ast.Call) and (_dotted(par.func) or '') == 'iter' and len(par.args) == 2 and par.args[0] is u and isinstance(v, ast.Call) and (_dotted(v.func) or '').rsplit('.', 1)[-1] == 'partial':
+                            holder = (par, 'args', 0)
                 if holder is None:
                     continue
                 par, fld, idx = holder
@@ -416,6 +494,20 @@ class _LoopIdioms(ast.NodeTransformer):
                     for x in (init, inc):
                         ast.copy_location(x, st)
                     return [ast.fix_missing_locations(init), ast.fix_missing_locations(st)]
+            # for x in iter(partial(f, a, b), SENTINEL): B   ->   while True: x = f(a, b); if x == SENTINEL: break; B
+            if fn == 'iter' and isinstance(st, ast.For) and len(it.args) == 2 and isinstance(st.target, ast.Name) and isinstance(it.args[0], ast.Call) and (_dotted(it.args[0].func) or '').rsplit('.', 1)[-1] == 'partial' and it.args[0].args and isinstance(it.args[1], ast.Constant):
+                pc = it.args[0]
+                call = ast.Call(func=pc.args[0], args=list(pc.args[1:]), keywords=list(pc.keywords))
+                asg = ast.Assign(targets=[ast.Name(id=st.target.id, ctx=ast.Store())], value=call, type_comment=None)
+                sent = it.args[1].value
+                if sent in (0, b'', '', None) and not isinstance(sent, bool):
+                    test = ast.UnaryOp(op=ast.Not(), operand=ast.Name(id=st.target.id, ctx=ast.Load()))
+                else:
+                    test = ast.Compare(left=ast.Name(id=st.target.id, ctx=ast.Load()), ops=[ast.Eq()], comparators=[it.args[1]])
+                guard = ast.If(test=test, body=[ast.Break()], orelse=[])
+                w = ast.While(test=ast.Constant(value=True), body=[asg, guard] + st.body, orelse=[])
+                self.n += 1
+                return ast.fix_missing_locations(ast.copy_location(w, st))
             # takewhile
             if fn == 'takewhile' and isinstance(st, ast.For) and len(it.args) == 2 and isinstance(it.args[0], ast.Lambda) and len(it.args[0].args.args) == 1 and isinstance(st.target, ast.Name):
                 lam = it.args[0]
@@ -2633,6 +2725,32 @@ class Normalizer:
                 have = {st.name for st in cnode.body if isinstance(st, FuncNode)}
                 missing = {q.split('.', 1)[1] for q in known if q.startswith(cname + '.') and q.count('.') == 1} - have
                 cands = [st for st in tree.body if isinstance(st, FuncNode) and st.name in missing and st.name not in known]
+                # ... or under another name: an unknown module-level function whose body looks like exactly one missing method
+                prof = inv.get('profiles', {})
+                unknown = [st for st in tree.body if isinstance(st, FuncNode) and st.name not in known and st not in cands]
+                for mname in sorted(missing - {c.name for c in cands}):
+                    pm = prof.get(f'{cname}.{mname}')
+                    if not pm or not pm.get('tokens'):
+                        continue
+                    want_t = set(pm['tokens'])
+                    scored = []
+                    for st in unknown:
+                        got = set(fingerprint(st))
+                        union = want_t | got
+                        sim = len(want_t & got) / len(union) if union else 0.0
+                        nargs = len(st.args.posonlyargs + st.args.args + st.args.kwonlyargs)
+                        if sim >= 0.8 and nargs == pm.get('nargs', -1) - 1 and isinstance(st, ast.AsyncFunctionDef) == bool(pm.get('async')):
+                            scored.append((sim, st))
+                    if len(scored) == 1:
+                        st = scored[0][1]
+                        old_name = st.name
+                        for n in ast.walk(tree):
+                            if isinstance(n, ast.Name) and n.id == old_name:
+                                n.id = mname
+                        st.name = mname
+                        cands.append(st)
+                        unknown.remove(st)
+                        self.log.append(f'{rel}: module-level {old_name} is taken to be the former method {cname}.{mname} (similarity {scored[0][0]:.2f})')
                 if not cands:
                     continue
                 names = {f.name for f in cands}
@@ -3136,6 +3254,9 @@ class Normalizer:
 
     def run(self):
         for tree in self.trees.values():
+            la = _LocalAnnAssign()
+            la.visit(tree)
+            self.stats['idioms'] += la.n
             li = _LoopIdioms()
             li.visit(tree)
             self.stats['idioms'] += li.n
